@@ -29,3 +29,9 @@ size_t verif_ctl_const_write_deep(const cbor_item_t* item) {
 __attribute__((__pure__)) cbor_item_t* verif_ctl_pure_get(const cbor_item_t* item) {
   return cbor_incref(((cbor_item_t**)item->data)[0]);
 }
+
+/* *.payload-reads: the last payload byte of a string that may be empty */
+int verif_ctl_last_byte(const cbor_item_t* item) {
+  const unsigned char* text = cbor_string_handle(item);
+  return text[cbor_string_length(item) - 1];
+}
